@@ -209,8 +209,9 @@ impl<R: Round, const B: Word> FBig<R, B> {
         let new_context = Context::new(precision);
 
         // shrink if necessary
-        let repr = if self.context.precision > precision {
-            // it also handles unlimited precision
+        let repr = if !self.context.is_limited() || self.context.precision > precision {
+            // an unlimited source may hold any number of digits; repr_round also handles
+            // an unlimited target precision
             new_context.repr_round(self.repr)
         } else {
             Exact(self.repr)
